@@ -67,9 +67,10 @@ func (n *Net) newPair(id string, a, b Addr) (*Conn, *Conn) {
 	p.gone[0], p.gone[1] = make(chan struct{}), make(chan struct{})
 	c0 := &Conn{p: p, side: 0, local: a, remote: b}
 	c1 := &Conn{p: p, side: 1, local: b, remote: a}
-	n.mu.Lock()
-	n.conns = append(n.conns, c0)
-	n.mu.Unlock()
+	sh := n.shardOf(string(b))
+	sh.mu.Lock()
+	sh.conns = append(sh.conns, c0)
+	sh.mu.Unlock()
 	return c0, c1
 }
 
@@ -266,12 +267,22 @@ type Endpoint interface {
 	Connect(ctx context.Context, kind string, client Addr) (accept func(server *Conn), err error)
 }
 
+// shard is the per-address part of the network's bookkeeping. Keeping it per
+// address (instead of one global lock) matters in race mode: a global harness
+// lock taken by every dial would order unrelated proxy goroutines and hide
+// races between them.
+type shard struct {
+	mu    sync.Mutex
+	ep    Endpoint
+	seq   int
+	base  int
+	conns []*Conn
+}
+
 type Net struct {
-	mu        sync.Mutex
-	endpoints map[string]Endpoint
-	conns     []*Conn
-	nextPort  int
-	connSeq   map[string]int
+	regMu     sync.Mutex
+	shards    sync.Map // addr -> *shard
+	nshards   int
 	onClose   func(c *Conn, reset bool)
 	onProxyWrite func(rid string)
 	H         *History
@@ -279,19 +290,36 @@ type Net struct {
 }
 
 func NewNet(h *History, s *Sim) *Net {
-	return &Net{endpoints: map[string]Endpoint{}, nextPort: 40000, connSeq: map[string]int{}, H: h, S: s}
+	return &Net{H: h, S: s}
+}
+
+func (n *Net) shardOf(addr string) *shard {
+	if v, ok := n.shards.Load(addr); ok {
+		return v.(*shard)
+	}
+	n.regMu.Lock()
+	defer n.regMu.Unlock()
+	if v, ok := n.shards.Load(addr); ok {
+		return v.(*shard)
+	}
+	n.nshards++
+	sh := &shard{base: 20000 + n.nshards*500}
+	n.shards.Store(addr, sh)
+	return sh
 }
 
 func (n *Net) Register(addr string, e Endpoint) {
-	n.mu.Lock()
-	n.endpoints[addr] = e
-	n.mu.Unlock()
+	sh := n.shardOf(addr)
+	sh.mu.Lock()
+	sh.ep = e
+	sh.mu.Unlock()
 }
 
 func (n *Net) Unregister(addr string) {
-	n.mu.Lock()
-	delete(n.endpoints, addr)
-	n.mu.Unlock()
+	sh := n.shardOf(addr)
+	sh.mu.Lock()
+	sh.ep = nil
+	sh.mu.Unlock()
 }
 
 var errRefused = &net.OpError{Op: "dial", Net: "tcp", Err: os.NewSyscallError("connect", syscall.ECONNREFUSED)}
@@ -314,13 +342,13 @@ func (n *Net) Dial(ctx context.Context, kind, srcIP, addr string) (*Conn, error)
 	if err := ctx.Err(); err != nil {
 		return nil, err
 	}
-	n.mu.Lock()
-	e := n.endpoints[addr]
-	n.nextPort++
-	client := Addr(fmt.Sprintf("%s:%d", srcIP, n.nextPort))
-	n.connSeq[addr]++
-	id := fmt.Sprintf("%s/%s#%d", kind, addr, n.connSeq[addr])
-	n.mu.Unlock()
+	sh := n.shardOf(addr)
+	sh.mu.Lock()
+	e := sh.ep
+	sh.seq++
+	client := Addr(fmt.Sprintf("%s:%d", srcIP, sh.base+sh.seq%500))
+	id := fmt.Sprintf("%s/%s#%d", kind, addr, sh.seq)
+	sh.mu.Unlock()
 	if e == nil {
 		n.H.Add(Event{Kind: "net.refused", Target: addr, Obj: id, Info: kind})
 		return nil, errRefused
@@ -351,9 +379,14 @@ func (n *Net) HangDial(ctx context.Context) error {
 
 // CloseAll closes every connection ever created (teardown).
 func (n *Net) CloseAll() {
-	n.mu.Lock()
-	conns := n.conns
-	n.mu.Unlock()
+	var conns []*Conn
+	n.shards.Range(func(_, v any) bool {
+		sh := v.(*shard)
+		sh.mu.Lock()
+		conns = append(conns, sh.conns...)
+		sh.mu.Unlock()
+		return true
+	})
 	for _, c := range conns {
 		c.p.mu.Lock()
 		for side := 0; side < 2; side++ {
